@@ -36,6 +36,17 @@ def cmdSize (toks : Toks) : Option String :=
   | ["SZFUT", q, target, lq, lo, sq, so] => some (shLegs (futOrderRequests (pI q) (pB target) (pI lq) (pI lo) (pI sq) (pI so)))
   | ["SZFSUB", amount, isBuy, eff, posQty, oldQty, tc] =>
       some (shLegs (futSubmit (pF amount) (pB isBuy) (parseEffect eff) (pI posQty) (pI oldQty) (pI tc)))
+  | "SZOTP" :: value :: cash :: rate :: mult :: minC :: taxRate :: taxMult :: _n :: rest =>
+      let cfg : StockCostCfg := { rate := pF rate, mult := pF mult, minC := pF minC, taxRate := pF taxRate, taxMult := pF taxMult }
+      let rec items : List String → List OtpItem
+        | k :: lot :: cs :: pc :: last :: op :: cp :: om :: cm :: cur :: more =>
+          { ins := ⟨pB k, pI lot⟩, percent := pF pc, last := pF last, openP := pF op, closeP := pF cp, openMkt := pB om, closeMkt := pB cm,
+            cur := pI cur, isCS := pB cs } :: items more
+        | _ => []
+      let costV : Float → Float := fun v => stockCostWithValue cfg (decide (v < 0)) (if v < 0 then -v else v)
+      let sellCost : Bool → Int → Float → Float := fun isCS q price => stockOrderCost cfg isCS true price (Float.ofInt q)
+      let os := orderTargetPortfolio (pF value) (pF cash) (items rest) costV sellCost
+      some (if os.isEmpty then "NONE" else joinSp (os.map (fun o => s!"{o.idx}:{if o.isBuy then 1 else 0}:{o.qty}:{match o.limit with | none => "-" | some l => toString l.toBits}")))
   | ["DECQ", a, b] => some (toString (R.decQuot10 (pF a) (pF b)))
   | _ => none
 
